@@ -201,26 +201,21 @@ Section Event.
         rewrite (blocked_sleep_cur _ _ Hbl) in Hc. discriminate.
   Qed.
 
-  (* activation keeps the liveness facts of the fragment *)
-  Lemma ev_live1 : NwLive dr1 /\ AllLive dr1.
+  (* activation keeps the liveness fact of the fragment *)
+  Lemma ev_live1 : NwLive dr1.
   Proof.
-    destruct (pe_drv _ _ _ _ _ _ _ HP m (pe_m _ _ _ _ _ _ _ HP)) as (l & _ & [Hmid _] & _ & _ & (_ & Hn & Ha)).
+    destruct (pe_drv _ _ _ _ _ _ _ HP m (pe_m _ _ _ _ _ _ _ HP)) as (l & _ & [Hmid _] & _ & _ & (_ & Hn)).
     assert (Hmid1 : Mid t dr1) by (apply activate_mid; exact ev_pre).
-    assert (Hsub : forall d es, In (d, es) (pending dr1) -> In (d, es) (pending (drv_of w m))).
-    { intros d es Hin. rewrite <- ev_pending0. unfold dr1, activate in Hin. destruct (q_bump t (pending dr0)) as [wk rest] eqn:Eb.
-      cbn [snd pending] in Hin. destruct (q_bump_spec _ _ _ _ Eb) as (-> & _). apply in_or_app. right; exact Hin. }
     assert (Hnw : forall x, next_wakeup dr1 = Some x -> next_wakeup (drv_of w m) = Some x /\ t < x).
-    { intros x Hx. pose proof ev_pending0 as _. unfold dr1, activate in Hx. destruct (q_bump t (pending dr0)) as [wk rest]. cbn [snd next_wakeup] in Hx.
+    { intros x Hx. unfold dr1, activate in Hx. destruct (q_bump t (pending dr0)) as [wk rest]. cbn [snd next_wakeup] in Hx.
       assert (E : next_wakeup dr0 = next_wakeup (drv_of w m)) by (unfold dr0; destruct fire; reflexivity).
       rewrite E in Hx. destruct (next_wakeup (drv_of w m)) as [y|]; [|discriminate].
       destruct (y <=? t) eqn:Ey; [discriminate|]. injection Hx as <-. split; [reflexivity|lia]. }
-    split.
-    - intros x Hx. destruct (Hnw x Hx) as [Hx0 Hlt]. pose proof (Hn x Hx0) as Hne.
-      set (E := ents_at x (pending (drv_of w m))) in *.
-      assert (Hin : In (x, E) (pending dr0)) by (rewrite ev_pending0; apply ents_at_in; exact Hne).
-      pose proof (activate_keeps_future t dr0 x E Hin Hlt) as Hk. fold dr1 in Hk.
-      rewrite (in_ents_at _ _ _ (mid_sorted _ _ Hmid1) Hk). exact Hne.
-    - intros d es Hin. exact (Ha d es (Hsub d es Hin)).
+    intros x Hx. destruct (Hnw x Hx) as [Hx0 Hlt]. pose proof (Hn x Hx0) as Hne.
+    set (E := ents_at x (pending (drv_of w m))) in *.
+    assert (Hin : In (x, E) (pending dr0)) by (rewrite ev_pending0; apply ents_at_in; exact Hne).
+    pose proof (activate_keeps_future t dr0 x E Hin Hlt) as Hk. fold dr1 in Hk.
+    rewrite (in_ents_at _ _ _ (mid_sorted _ _ Hmid1) Hk). exact Hne.
   Qed.
 
   Lemma ev_minv1 : MInv ts0 t m q0 w1.
@@ -250,18 +245,15 @@ Proof.
   - cbn [pending scheduled]. rewrite app_nil_r. repeat split. intros x H; discriminate.
 Qed.
 
-Lemma deactivate_live t dr : Mid t dr -> NwLive dr -> AllLive dr ->
-  NwLive (fst (deactivate true dr)) /\ AllLive (fst (deactivate true dr)).
+Lemma deactivate_live t dr : Mid t dr -> NwLive dr -> NwLive (fst (deactivate true dr)).
 Proof.
-  intros Hm Hn Ha. pose proof (mid_sorted _ _ Hm) as Hs. destruct (deactivate_out dr) as (Dp & _ & _).
-  split.
-  - intros x Hx. rewrite Dp. revert Hx. unfold deactivate, q_next.
-    destruct (prune (pending dr)) as [|[d0 es0] r] eqn:Ep; cbn [front_time fst next_wakeup].
-    + intros Hx. pose proof (Hn x Hx) as Hne. rewrite <- Ep. rewrite ents_at_prune_keep; assumption.
-    + destruct (earlier d0 (next_wakeup dr)); cbn [fst next_wakeup]; intros Hx.
-      * injection Hx as <-. cbn [ents_at]. rewrite N.eqb_refl. exact (prune_head_live _ _ _ _ Ep).
-      * pose proof (Hn x Hx) as Hne. rewrite <- Ep. rewrite ents_at_prune_keep; assumption.
-  - intros d es Hin. rewrite Dp in Hin. exact (Ha d es (prune_in _ _ Hin)).
+  intros Hm Hn. pose proof (mid_sorted _ _ Hm) as Hs. destruct (deactivate_out dr) as (Dp & _ & _).
+  intros x Hx. rewrite Dp. revert Hx. unfold deactivate, q_next.
+  destruct (prune (pending dr)) as [|[d0 es0] r] eqn:Ep; cbn [front_time fst next_wakeup].
+  - intros Hx. pose proof (Hn x Hx) as Hne. rewrite <- Ep. rewrite ents_at_prune_keep; assumption.
+  - destruct (earlier d0 (next_wakeup dr)); cbn [fst next_wakeup]; intros Hx.
+    + injection Hx as <-. cbn [ents_at]. rewrite N.eqb_refl. exact (prune_head_live _ _ _ _ Ep).
+    + pose proof (Hn x Hx) as Hne. rewrite <- Ep. rewrite ents_at_prune_keep; assumption.
 Qed.
 
 Lemma mod_other m m' : m < 2 -> m' < 2 -> m' <> m -> (m' =? 0) <> (m =? 0).
@@ -339,8 +331,7 @@ Proof.
     + rewrite W3f. exists t. split; [lia|]. split; [exact Hinv3|].
       assert (Hex : Extra t dr3).
       { pose proof (deactivate_snap t (drv_of w2 m) (mi_mid _ _ _ _ _ Hm2)) as Hsn.
-        destruct (mi_live _ _ _ _ _ Hm2) as [Hn2 Ha2].
-        pose proof (deactivate_live t (drv_of w2 m) (mi_mid _ _ _ _ _ Hm2) Hn2 Ha2) as Hlv.
+        pose proof (deactivate_live t (drv_of w2 m) (mi_mid _ _ _ _ _ Hm2) (mi_live _ _ _ _ _ Hm2)) as Hlv.
         rewrite Ed in Hsn, Hlv. cbn [fst] in Hsn, Hlv. split; [exact Hsn|exact Hlv]. }
       split; [|split; [|exact Hex]].
       * eapply Permutation_trans; [apply wakes_perm; exact Hperm'|]. rewrite Ds, Hs2, Hsa.
@@ -420,7 +411,7 @@ Proof.
   pose proof (ev_minv1 ts0 later w t m spawn fire HP) as Hm1.
   pose proof (ev_woken ts0 later w t m spawn fire HP) as Hwoken.
   pose proof (ev_pre ts0 later w t m spawn fire HP) as Hpre.
-  destruct (pe_drv _ _ _ _ _ _ _ HP m (pe_m _ _ _ _ _ _ _ HP)) as (l & _ & [Hmidl _] & _ & [_ Htask0] & ([_ _ _ Hcov] & Hnl & Hal)).
+  destruct (pe_drv _ _ _ _ _ _ _ HP m (pe_m _ _ _ _ _ _ _ HP)) as (l & _ & [Hmidl _] & _ & [_ Htask0] & ([_ _ _ Hcov] & Hnl)).
   unfold module_event.
   set (dr0 := if fire then sched_fire t (drv_of w m) else drv_of w m) in *.
   assert (Hp0 : pending dr0 = pending (drv_of w m)) by (unfold dr0; destruct fire; reflexivity).
@@ -464,38 +455,42 @@ Proof.
     { change (q0 = []). destruct q0; [reflexivity|discriminate]. }
     assert (Eq0 : q0 = []) by exact Hq0def.
     clearbody q0. subst q0. clear Hq.
-    (* nothing was woken, nothing spawned *)
-    assert (Hwk : wk = []).
-    { destruct wk as [|[d es] wk0]; [reflexivity|exfalso].
-      destruct (q_bump_spec _ _ _ _ Eb) as (Hp & _ & _).
-      assert (Hin : In (d, es) (pending (drv_of w m))) by (rewrite <- Hp0, Hp; left; reflexivity).
-      pose proof (Hal d es Hin) as Hne. destruct es as [|id es]; [contradiction Hne; reflexivity|].
-      destruct (Hwoken d (id :: es) id (or_introl eq_refl) (or_introl eq_refl)) as (k & tkx & sx & _ & _ & _ & _ & _ & Hwk).
+    (* nothing was woken, nothing spawned: every popped slot is empty *)
+    assert (Hwkempty : forall d es, In (d, es) wk -> es = []).
+    { intros d es Hin. destruct es as [|id es]; [reflexivity|exfalso].
+      destruct (Hwoken d (id :: es) id Hin (or_introl eq_refl)) as (k & tkx & sx & _ & _ & _ & _ & _ & Hwk).
       assert (Hk : In k []).
-      { rewrite <- Hq0def. rewrite dedup_in. apply in_or_app. left. cbn [flat_map snd app]. apply in_or_app. left.
-        unfold owner_of. rewrite Hwk. left; reflexivity. }
+      { rewrite <- Hq0def. rewrite dedup_in. apply in_or_app. left. apply in_flat_map. exists id. split.
+        - apply in_flat_map. exists (d, id :: es). split; [exact Hin|left; reflexivity].
+        - unfold owner_of. rewrite Hwk. left; reflexivity. }
       contradiction. }
-    subst wk. destruct (q_bump_spec _ _ _ _ Eb) as (Hp & _ & Hhead). cbn [app] in Hp.
+    destruct (q_bump_spec _ _ _ _ Eb) as (Hp & Hwkle & _).
     unfold w2 in Ed. rewrite run_queue_nil in Ed. unfold w1 in Ed. rewrite drv_of_set_same in Ed.
-    assert (Hrest : rest = pending (drv_of w m)) by (rewrite <- Hp0; symmetry; exact Hp).
-    assert (Hfut : forall d es, In (d, es) (pending (drv_of w m)) -> t < d).
-    { intros d es Hin. rewrite <- Hrest in Hin.
-      assert (Hs0 : sorted (pending dr0)) by (rewrite Hp0; exact (mid_sorted _ _ Hmidl)).
-      exact (q_bump_rest_future t (pending dr0) [] rest Hs0 Eb (d, es) Hin). }
+    assert (Hs0 : sorted (pending dr0)) by (rewrite Hp0; exact (mid_sorted _ _ Hmidl)).
+    (* a live slot of the old queue is still there *)
+    assert (Hlive_rest : forall d es, In (d, es) (pending (drv_of w m)) -> es <> [] -> In (d, es) rest).
+    { intros d es Hin Hne. rewrite <- Hp0, Hp in Hin. apply in_app_or in Hin. destruct Hin as [Hin|Hin]; [|exact Hin].
+      rewrite (Hwkempty d es Hin) in Hne. contradiction. }
+    assert (Hrest_in : forall s0, In s0 rest -> In s0 (pending (drv_of w m))).
+    { intros s0 Hin. rewrite <- Hp0, Hp. apply in_or_app. right; exact Hin. }
+    (* next_wakeup is not due: the slot it was scheduled for is live, hence not popped *)
+    assert (Hnwkeep : next_wakeup d1 = next_wakeup (drv_of w m)).
+    { unfold d1. cbn [next_wakeup]. rewrite Hn0. destruct (next_wakeup (drv_of w m)) as [x|] eqn:Ex; [|reflexivity].
+      pose proof (Hnl x Ex) as Hne. pose proof (Hlive_rest _ _ (ents_at_in _ _ Hne) Hne) as Hin.
+      pose proof (q_bump_rest_future t (pending dr0) wk rest Hs0 Eb _ Hin) as Hlt. cbn [fst] in Hlt.
+      replace (x <=? t) with false by lia. reflexivity. }
     assert (Hwk' : wk' = None).
-    { revert Ed. unfold deactivate, q_next. cbn [d1 pending next_wakeup]. rewrite Hrest, Hn0.
-      rewrite ?(prune_alllive (pending (drv_of w m)) Hal).
-      destruct (pending (drv_of w m)) as [|[d0 es0] r] eqn:Epd; cbn [front_time]; [intros H; injection H as _ <-; reflexivity|].
-      assert (Hne0 : es0 <> []) by (apply (Hal d0 es0); rewrite Epd; left; reflexivity).
+    { revert Ed. unfold deactivate, q_next. rewrite Hnwkeep. cbn [d1 pending].
+      destruct (prune rest) as [|[d0 es0] r] eqn:Epr; cbn [front_time]; [intros H; injection H as _ <-; reflexivity|].
+      pose proof (prune_head_live _ _ _ _ Epr) as Hne0.
+      assert (Hin0 : In (d0, es0) (pending (drv_of w m))) by (apply Hrest_in, prune_in; rewrite Epr; left; reflexivity).
       assert (Hfin0 : d0 < TMAX).
       { destruct es0 as [|id0 es0']; [contradiction Hne0; reflexivity|].
-        assert (Hid0 : In id0 (ents_at d0 ((d0, id0 :: es0') :: r))) by (cbn [ents_at]; rewrite N.eqb_refl; left; reflexivity).
+        assert (Hid0 : In id0 (ents_at d0 (pending (drv_of w m)))) by (rewrite (in_ents_at _ _ _ (mid_sorted _ _ Hmidl) Hin0); left; reflexivity).
         destruct (Htask0 d0 id0 Hid0) as (k0 & tk0 & s0 & Hk0 & Hbl0 & _ & _ & _ & E0).
         rewrite <- E0. exact (base_blocked_fin _ _ _ _ _ _ _ (pe_base _ _ _ _ _ _ _ HP) Hk0 Hbl0). }
-      destruct (Hcov d0 es0) as (x & Hx' & _ & _ & Hxd); [left; reflexivity|exact Hne0|exact Hfin0|].
-      rewrite Hx'. assert (Htx : t < x).
-      { pose proof (Hnl x Hx') as Hne. pose proof (ents_at_in _ _ Hne) as Hin. rewrite Epd in Hin. exact (Hfut _ _ Hin). }
-      replace (x <=? t) with false by lia. unfold earlier. replace (d0 <? x) with false by lia.
+      destruct (Hcov d0 es0 Hin0 Hne0 Hfin0) as (x & Hx' & _ & _ & Hxd).
+      rewrite Hx'. unfold earlier. replace (d0 <? x) with false by lia.
       intros H; injection H as _ <-; reflexivity. }
     subst wk'. split; [reflexivity|].
     unfold w2. rewrite run_queue_nil, W1c. reflexivity.
